@@ -469,6 +469,7 @@ def search(ctx, disagreements):
             cases.append((dd["op"], dd["input"], tuple(dd["extra"]) if isinstance(dd["extra"], list) else dd["extra"]))
     found = judge(ctx, cases) if ctx.driver_ok else []
     found += shape_laws(ctx, 1500 if ctx.thorough() else 400)
+    found += rect_attr_laws(ctx, 600 if ctx.thorough() else 150)
     ctx.stats["evaluations"] = ctx.stats.get("evaluations", 0) + len(cases)
     return found
 
@@ -500,6 +501,54 @@ def shape_laws(ctx, n):
         if why:
             found.append({"kind": "shape-law", "shape": k, "input": p, "detail": "%s%r.as_path() = %s: %s" % (k, p, impl_out[i], why)})
         ctx.count("judged-shape:" + k)
+    return found
+
+
+def rect_attr_laws(ctx, n):
+    """from_element(<rect ...>).as_path() against SVG 1.1 §9.2 read at the level of the attributes (Spec.rectOutlineAttr):
+    a radius that is not given (or blank) is copied from the other one, a radius given as zero means square corners"""
+    if not ctx.driver_ok:
+        return []
+    from lxml import etree
+    import importlib
+    S = importlib.import_module("picosvg.svg")
+    rng = ctx.rng
+    found, cases, lines, impl_out = [], [], [], []
+    rad = lambda: rng.choice([None, None, "0", "0.0", "-0", "5", "2.5", "30", "1e1", " ", ""])
+    fixed = [("10", "10", "80", "60", "30", "0"), ("10", "10", "80", "60", "0", "30"), ("10", "10", "80", "60", "30", None),
+             ("10", "10", "80", "60", None, "30"), ("10", "10", "80", "60", "0", None), ("10", "10", "80", "60", "0", "0"),
+             ("10", "10", "80", "60", "30", " "), ("10", "10", "80", "60", "50", "5")]
+    for i in range(n):
+        if i < len(fixed):
+            x, y, w, h, rx, ry = fixed[i]
+        else:
+            x, y = (pathgen.fmt(rng.choice([0, 1, 2.5, -3, round(rng.uniform(-50, 50), 2)])) for _ in range(2))
+            w, h = (pathgen.fmt(rng.choice([1, 2.5, 10, 40, round(rng.uniform(0.5, 50), 2)])) for _ in range(2))
+            rx, ry = rad(), rad()
+        attrib = {"x": x, "y": y, "width": w, "height": h}
+        if rx is not None:
+            attrib["rx"] = rx
+        if ry is not None:
+            attrib["ry"] = ry
+        o, v = common.outcome_of(lambda: S.from_element(etree.Element("{http://www.w3.org/2000/svg}rect", attrib)).as_path().d)
+        if o != "ok":
+            found.append({"kind": "rect-attr-law", "input": attrib, "detail": "from_element/as_path raised %s on a well-formed rect" % o})
+            continue
+        given = lambda t: "1" if t is not None and t.strip() else "0"
+        val = lambda t: float(t) if t is not None and t.strip() else 0.0
+        cases.append(attrib)
+        impl_out.append(v)
+        lines.append("spec\tinterp\t" + esc(v))
+        lines.append("spec\trectattr\t%s\t%s\t%s" % (" ".join(hexf(float(t)) for t in (x, y, w, h)) + " " + hexf(val(rx)) + " " + hexf(val(ry)), given(rx), given(ry)))
+    outs = ctx.model(lines)
+    for i, attrib in enumerate(cases):
+        got, want = parse_segs(outs[2 * i]), parse_segs(outs[2 * i + 1])
+        if want is None:
+            continue
+        why = "as_path output not interpretable" if got is None else segs_close(got, want, 1e-12)
+        if why:
+            found.append({"kind": "rect-attr-law", "input": attrib, "detail": "<rect %s> as path = %s: %s" % (" ".join('%s="%s"' % kv for kv in attrib.items()), impl_out[i], why)})
+        ctx.count("judged-rect-attrs:rx=%s,ry=%s" % tuple("absent" if attrib.get(k) is None else "blank" if not attrib[k].strip() else "zero" if float(attrib[k]) == 0 else "positive" for k in ("rx", "ry")))
     return found
 
 
